@@ -76,7 +76,10 @@ func (fr *Frame) nativeCallVals(st *State, fn *ssa.Function, args []Val, sig *ty
 		if fi >= 0 {
 			recv := fr.tvOf(st, args[0], nil)
 			a := &Addr{kind: aField, base: recv.S, si: si, field: fi, typ: si.st.Field(fi).Type()}
-			method := name[strings.LastIndex(name, ".")+1:]
+			method := fn.Name()
+			if i := strings.Index(method, "["); i > 0 {
+				method = method[:i]
+			}
 			switch method {
 			case "Load":
 				v := r.load(st, a)
